@@ -1,31 +1,5 @@
 package main
 
-import (
-	"go/types"
-
-	"golang.org/x/tools/go/ssa"
-)
-
-func (x *Exec) makeMap(st *State, t types.Type) *Term {
-	return x.c.Fresh("map", x.c.MapH)
-}
-
-func (x *Exec) mapUpdate(fr *Frame, st *State, ins *ssa.MapUpdate, b *ssa.BasicBlock, i int) ([]Outcome, bool) {
-	return abortOut(st, "map update unsupported in %s", fr.fn), true
-}
-
-func (x *Exec) lookup(st *State, ins *ssa.Lookup, m, k *Term) (*Term, error) {
-	return nil, errUnsupported("map lookup")
-}
-
-func (x *Exec) mapLen(st *State, m *Term, t *types.Map) *Term {
-	return x.c.App("map_len", x.c.Int, m)
-}
-
-func (x *Exec) mapDelete(fr *Frame, st *State, cc *ssa.CallCommon, args []*Term) []Outcome {
-	return abortOut(st, "map delete unsupported in %s", fr.fn)
-}
-
 type errUnsupported string
 
 func (e errUnsupported) Error() string { return string(e) + " unsupported" }
